@@ -102,10 +102,6 @@ def run(pid, tier, replay, prefixes, models, gens, level_rule, keyfn=None, extra
             f[1] = str(int(f[1]) + a)
             fails.append(tuple(f))
     fails = sorted(set(fails), key=lambda x: int(x[1]))
-    if not replay:
-        for name in require_stats:
-            if not stats.get(name):
-                raise vlib.ToolError("vacuous run: no trace step counted as '%s'" % name)
     per_script = {}
     for clause, line, detail in [(f[0], int(f[1]), f[2] if len(f) > 2 else "") for f in fails]:
         if not clause.startswith(tuple(prefixes)):
@@ -118,6 +114,11 @@ def run(pid, tier, replay, prefixes, models, gens, level_rule, keyfn=None, extra
         script = json.loads(scripts[sc])
         trace = [x for x in rows if x["sc"] == sc]
         verdict.fail(key, {"clause": clause, "detail": detail, "trace_line": line, "script": script, "trace": trace[:400]})
+    # vacuity is a tool error, but never hides a violation that was found
+    if not replay and not per_script:
+        for name in require_stats:
+            if not stats.get(name):
+                raise vlib.ToolError("vacuous run: no trace step counted as '%s'" % name)
     nq = sum(1 for r in rows if r["ev"] == "Quiesce")
     ev = {
         "tier": tier, "level": "model_checking",
